@@ -34,7 +34,10 @@ pub fn generate(seed: u64, idx: u64) -> Scenario {
             8 => DocKind::Unicode,
             _ => DocKind::Soup,
         };
-        let t = gen::document(&mut rng, kind);
+        let mut t = gen::document(&mut rng, kind);
+        if rng.chance(50) {
+            t = rng.pick(&gen::TINY).to_string();
+        }
         s.open(u, &t);
     }
     let n = rng.range(1, 40);
@@ -76,7 +79,14 @@ pub fn generate(seed: u64, idx: u64) -> Scenario {
     while steps < n {
         let uri = rng.pick(&uris).clone();
         let text = s.text(&uri).cloned().unwrap_or_default();
-        match (family, rng.below(13)) {
+        match (family, rng.below(14)) {
+            (_, 13) => {
+                // the boundaries of the text: everything deleted / replaced, offset 0, the end
+                let (r, repl) = gen::boundary_case_edit(&mut rng, &text);
+                let e = gen::to_lsp_edit(&text, r, repl);
+                s.change(&uri, vec![e]);
+                steps += 1;
+            }
             (_, roll @ (10 | 11 | 12)) => {
                 // trivia + change of a looked-ahead token + undo, one notification each; or the
                 // same at the place where error recovery stops
